@@ -87,6 +87,11 @@ def step (c : Cfg) (s : St) : Step → St
 
 def run (c : Cfg) (iter0 : Nat) (steps : List Step) : St := steps.foldl (step c) (init iter0)
 
+/-- the clusterer events of ONE annealing iteration when nothing goes wrong, as `Trainer.run` then `Resampler.run` emit them:
+    `[fit,] predict (training labels), predict (assignments of the resampled particles)` -/
+def annealEvents (didFit : Bool) : List Event :=
+  (if didFit then [.fit] else []) ++ [.predict, .predict]
+
 /-- a β-schedule with an optional resume boundary before iteration number `r` of the schedule (0-based) -/
 def withResume (sched : List Bool) : Option Nat → List Step
   | none => sched.map .iter
